@@ -124,7 +124,9 @@ impl BuildOptimiser {
             kt_ratio,
             max_step_size: self.max_step_size,
             steps: self.steps,
-            inner_steps: u64::min(self.inner_steps, self.steps),
+            // An inner loop always has at least one step, which also ensures the number of loops
+            // can be found without dividing by zero.
+            inner_steps: u64::max(u64::min(self.inner_steps, self.steps), 1),
             seed,
             convergence: self.convergence,
         }
